@@ -871,11 +871,11 @@ class VariablesInAllowedPositionChecker(VariablesCollector):
     Variables passed to field arguments conform to type """
 
     def iter_op_variables(self, op):
-        for usage in self._op_variables[op].items():
+        # All usages, not only the last one of each variable.
+        for usage in self._op_usages[op]:
             yield usage
-        for fragment in self._op_fragments[op]:
-            frament_vars = self._fragment_variables[fragment].items()
-            for usage in frament_vars:
+        for fragment in deduplicate(self._op_fragments[op]):
+            for usage in self._fragment_usages[fragment]:
                 yield usage
 
     def leave_document(self, node):
